@@ -328,10 +328,31 @@ func CountEvents(fn *ssa.Function, event func(ssa.Instruction) CountSet) []PathE
 func ReachAvoiding(fn *ssa.Function, from ssa.Instruction, barrier, stop func(ssa.Instruction) bool) []ssa.Instruction {
 	var out []ssa.Instruction
 	seen := map[*ssa.BasicBlock]bool{}
+	var defers []*ssa.Defer
+	Instrs(fn, func(in ssa.Instruction) {
+		if d, ok := in.(*ssa.Defer); ok {
+			defers = append(defers, d)
+		}
+	})
 	var walk func(b *ssa.BasicBlock, startIdx int)
 	walk = func(b *ssa.BasicBlock, startIdx int) {
 		for i := startIdx; i < len(b.Instrs); i++ {
 			in := b.Instrs[i]
+			if _, isDefer := in.(*ssa.Defer); isDefer {
+				continue // runs at RunDefers
+			}
+			if _, isRD := in.(*ssa.RunDefers); isRD && barrier != nil {
+				hit := false
+				for _, d := range defers {
+					if d.Block().Dominates(b) && barrier(d) {
+						hit = true
+					}
+				}
+				if hit {
+					return
+				}
+				continue
+			}
 			if barrier != nil && barrier(in) {
 				return
 			}
